@@ -295,6 +295,49 @@ fn judge_proportion(n: usize, k: usize, levels: &[f64], l: &mut Local) {
     }
 }
 
+/// The normal-approximation (Wald) producer: its bounds are k/n -/+ z * sqrt(pq/n), so the z it used is recovered
+/// directly from either bound.
+fn judge_wald(n: usize, k: usize, levels: &[f64], l: &mut Local) {
+    if k < 10 || n - k < 10 {
+        return;
+    }
+    let ph = k as f64 / n as f64;
+    let sd = (ph * (1.0 - ph) / n as f64).sqrt();
+    for kind in KINDS {
+        for &level in levels.iter() {
+            let case = || json!({"what": "wald", "n": n, "k": k, "kind": kind, "level": level});
+            let o = match call(|| proportion::ci_z_normal(conf(kind, level), n, k)).map(|i| Obs::of64(&i)) {
+                Out::Ok(o) => o,
+                _ => continue, // a one-sided bound beyond the natural far end is no interval (C02)
+            };
+            let zs: Vec<f64> = match kind {
+                Kind::Two => vec![(ph - o.lo) / sd, (o.hi - ph) / sd],
+                Kind::Upper => vec![(ph - o.lo) / sd],
+                Kind::Lower => vec![(o.hi - ph) / sd],
+            };
+            let target = kind.target(level);
+            for z in zs {
+                l.eval();
+                l.count("Wald z judged");
+                l.nontrivial(mix(&[n as u64, k as u64, kind as u64, level.to_bits(), 66]));
+                let dev = (norm_cdf(z) - target).abs();
+                // the subtraction bound - k/n loses about u * max(|bound|, k/n) / sd in z
+                let amp = 8e-16 * (1.0 + z.abs() * sd) / sd * sci_common::dist::norm_pdf(z);
+                let tol = TOL_P_NORMAL + amp;
+                l.max("wald_z_coverage_error_over_tol", dev / tol);
+                if !(dev <= tol) {
+                    l.violation(
+                        format!("ci_z_normal|z-not-normal-quantile|{}", if level < 0.5 { "L<1/2" } else { "L>=1/2" }),
+                        format!("the z implied by the normal-approximation interval does not satisfy Phi(z) = target (off by {:.3e})", dev),
+                        case(),
+                        json!({"n": n, "k": k, "kind": kind.name(), "level": level, "implied_z": z, "Phi(z)": norm_cdf(z), "target": target}),
+                    );
+                }
+            }
+        }
+    }
+}
+
 pub fn run(run: &Arc<Run>) {
     let seed = run.cfg.seed;
     let quick = run.cfg.quick();
@@ -321,6 +364,7 @@ pub fn run(run: &Arc<Run>) {
             "arith" => judge_arith(case["n"].as_u64().unwrap() as usize, &[level], &mut l),
             "unpaired" => judge_unpaired(case["na"].as_u64().unwrap() as usize, case["nb"].as_u64().unwrap() as usize, case["unit_log2"].as_i64().unwrap_or(0) as i32, case["scale_b_log2"].as_i64().unwrap() as i32, &[level], &mut l),
             "proportion" => judge_proportion(case["n"].as_u64().unwrap() as usize, case["k"].as_u64().unwrap() as usize, &[level], &mut l),
+            "wald" => judge_wald(case["n"].as_u64().unwrap() as usize, case["k"].as_u64().unwrap() as usize, &[level], &mut l),
             "order" => crate::props::purity::order_independence("critical value", seed, case["i"].as_u64().unwrap(), &mut l),
             _ => {}
         }
@@ -417,6 +461,11 @@ pub fn run(run: &Arc<Run>) {
         let n = r.range(4, 2000) as usize;
         let k = r.range(2, n as i64 - 2) as usize;
         judge_proportion(n, k, &levels, l);
+        judge_wald(n, k, &levels, l);
+        if n >= 40 {
+            // counts well inside the domain of the normal approximation as well
+            judge_wald(n, n / 2 - (k % 7), &levels, l);
+        }
     });
     run.require(&[
         "Arithmetic:nu<10",
@@ -431,6 +480,7 @@ pub fn run(run: &Arc<Run>) {
         "Unpaired:nu<1e3",
         "real-valued (non-integer) dof",
         "proportion z judged",
+        "Wald z judged",
         "level<1/2",
         "oracle cross-checked by quadrature",
         "pinned needle probes (dof, p) judged",
